@@ -133,13 +133,18 @@ pub fn replay(a: &Args) -> i32 {
     for row in tables["wire_bad"].as_array().unwrap() {
         evaluations += 1;
         let b = bytes_of(&row["bytes"]);
-        let ok = if row["kind"] == "bad_req" {
-            block(anemo::verif::direct::read_request(&cfg, &b[..])).is_ok()
-        } else {
-            block(anemo::verif::direct::read_response(&cfg, &b[..])).is_ok()
-        };
-        if ok {
-            bad("closed-set mutation was accepted".into(), row, &mut mismatches);
+        let is_req = row["kind"] == "bad_req";
+        let r = std::panic::catch_unwind(std::panic::AssertUnwindSafe(|| {
+            if is_req {
+                block(anemo::verif::direct::read_request(&cfg, &b[..])).is_ok()
+            } else {
+                block(anemo::verif::direct::read_response(&cfg, &b[..])).is_ok()
+            }
+        }));
+        match r {
+            Ok(false) => {}
+            Ok(true) => bad("bytes the specification rejects (closed-set mutation / absurd length prefix) were accepted".into(), row, &mut mismatches),
+            Err(_) => bad("the real decoder panicked on bytes the specification rejects with an error".into(), row, &mut mismatches),
         }
     }
     // the handshake preamble
